@@ -278,11 +278,20 @@ Fixpoint filter_lt34 (l : list val) : res (list val) :=
   | _ :: _ => Err TypeError
   end.
 
-(* other.dc_sig_algs in DELEGETED_CREDENTIAL_FORBIDDEN_ALG : a *list* is compared with each
-   forbidden scheme (a tuple); list == tuple is False in Python whatever the contents. *)
-Definition list_eq_tuple (l : list val) (t : Z * Z) : bool := false.
-Definition dc_sig_algs_forbidden (T : tables) (l : list val) : bool :=
-  existsb (list_eq_tuple l) (t_dc_forbidden T).
+(* any(alg in DELEGETED_CREDENTIAL_FORBIDDEN_ALG for alg in other.dc_sig_algs): a scheme is a 2-tuple;
+   anything else compares unequal to every forbidden tuple.
+   (Before /repo 8cc633e the test was `other.dc_sig_algs in DELEGETED_...`, a list compared with each
+   tuple, constantly False: rejects_outside_domain was refuted at D_dc_sig_algs by dc_sig_algs=[(8,4)].) *)
+Definition forbidden_alg (T : tables) (x : val) : bool :=
+  match x with
+  | VPair a b => existsb (fun t => (fst t =? a) && (snd t =? b)) (t_dc_forbidden T)
+  | _ => false
+  end.
+Definition dc_sig_algs_forbidden (T : tables) (l : list val) : bool := existsb (forbidden_alg T) l.
+
+(* key length demanded by the ticket cipher (/repo c50a338) *)
+Definition aes128_ticket_ciphers : list string := ["aes128gcm"; "aes128ccm"; "aes128ccm_8"]%string.
+Definition ticket_key_len (cipher : val) : Z := if in_tab cipher aes128_ticket_ciphers then 16 else 32.
 
 (* contents of the list attributes of an object, in attribute order *)
 Definition lists (h : heap) (s : settings) : list (list val) := map (hget h) (locs s).
@@ -386,6 +395,10 @@ Definition sanityCheckTicketSettings : res unit :=
   _ <- guard (negb (in_tab (ticketCipher c) (t_ticket_ciphers T))) ;;
   bad <- not_allowed_len (g F_ticketKeys) [16; 32] ;;
   _ <- guard bad ;;
+  (* the key has to fit the selected cipher (before c50a338 this check did not exist:
+     ticketCipher=chacha20-poly1305 with a 16-byte key was accepted) *)
+  bad2 <- not_allowed_len (g F_ticketKeys) [ticket_key_len (ticketCipher c)] ;;
+  _ <- guard bad2 ;;
   _ <- guard (negb ((0 <? ticketLifetime c) && (ticketLifetime c <=? 7 * 24 * 60 * 60))) ;;
   _ <- guard (negb ((0 <? max_early_data c) && (max_early_data c <=? 2 ^ 64))) ;;
   guard (negb ((0 <=? ticket_count c) && (ticket_count c <? 2 ^ 16))).
@@ -428,10 +441,15 @@ Definition step_macnames (self : settings) (h : heap) (o : settings) : heap * se
 Definition checks_C (T : tables) (h : heap) (o : settings) : res unit :=
   _ <- sanityCheckPsks T (lists h o) ;; sanityCheckTicketSettings T (lists h o) (sc o).
 
-(* _sanity_check_implementations, without its final test: IN-PLACE filtering through other's reference *)
-Definition step_impl (I : install) (h : heap) (o : settings) : heap :=
-  let h3 := if negb (i_m2crypto I) then remove_all_matches h (L o F_cipherImplementations) "openssl" else h in
-  if negb (i_pycrypto I) then remove_all_matches h3 (L o F_cipherImplementations) "pycrypto" else h3.
+(* _sanity_check_implementations, without its final test.  Since /repo 851aa29 it first rebinds
+   other.cipherImplementations to a copy (x = x[:]) and filters the COPY in place.
+   (Before, the filtering wrote through the location shared with the receiver: the frame theorem was
+   refuted at that cell - finding F2.) *)
+Definition step_impl (I : install) (h : heap) (o : settings) : heap * settings :=
+  let '(h', p) := halloc h (G h o F_cipherImplementations) in
+  let h3 := if negb (i_m2crypto I) then remove_all_matches h' p "openssl" else h' in
+  let h4 := if negb (i_pycrypto I) then remove_all_matches h3 p "pycrypto" else h3 in
+  (h4, set_loc o F_cipherImplementations p).
 
 (* _sanity_check_ciphers, without its final test: copies first (x = x[:]), then filters the copy *)
 Definition step_ciphers (I : install) (h : heap) (o : settings) : heap * settings :=
@@ -456,9 +474,9 @@ Definition validate (T : tables) (I : install) (h : heap) (s : settings) : heap 
   match checks_C T h2 o2 with
   | Err e => (h2, Err e)
   | Ok _ =>
-  let h4 := step_impl I h2 o2 in
-  if isnil (G h4 o2 F_cipherImplementations) then (h4, Err ValueError) else
-  let '(h5, o5) := step_ciphers I h4 o2 in
+  let '(h4, o4) := step_impl I h2 o2 in
+  if isnil (G h4 o4 F_cipherImplementations) then (h4, Err ValueError) else
+  let '(h5, o5) := step_ciphers I h4 o4 in
   if isnil (G h5 o5 F_cipherNames) then (h5, Err ValueError) else (h5, Ok o5)
   end end end end.
 
